@@ -45,6 +45,9 @@ def cases(tier, seed):
             for L in (3, 20):
                 for isa in (254, 253, 0x00):
                     out.append(dict(kind=kind, seedkey=sk, nbytes=L, w=255, intr='other_sa', intr_sa=isa, reps=1, seed=seed * 977 + len(out)))
+                # truncated intruding DM14 frames (DLC 7, 6, 4)
+                for dlc in (7, 6, 4):
+                    out.append(dict(kind=kind, seedkey=sk, nbytes=L, w=255, intr='other_sa', intr_dlc=dlc, reps=1, seed=seed * 977 + len(out)))
     return out
 
 
@@ -92,7 +95,7 @@ def one_run(case, k, seed):
                         if f.src == 'C' and C.split_id(f.can_id)['pf'] == C.PF_DM14 and len(f.data) == 8 and C.parse_dm14(f.data)['command'] == C.DM14_COMPLETED:
                             return
                     injected.append(DW.sim.now)
-                    I.send(C.make_id(6, 0, C.PF_DM14, DW.srv_addr, sa), C.dm14(3, 1, C.DM14_READ, p2, 7))
+                    I.send(C.make_id(6, 0, C.PF_DM14, DW.srv_addr, sa), C.dm14(3, 1, C.DM14_READ, p2, 7)[:case.get('intr_dlc', 8)])
                 for r in range(case['reps']):
                     # deferred (also r = 0): the hook runs before frame k's own deliveries are scheduled, bus order must put the intruder after it
                     DW.sim.after(r * 0.0007, shoot)
@@ -185,6 +188,17 @@ def run_case(case):
                     m = C.parse_dm15(f.data)
                     if m['status'] in (C.DM15_BUSY, C.DM15_FAILED):
                         obs['busy_answers_checked'] += 1
+            # the busy reply may legitimately end the running transaction (it reaches the running client) -- but whatever IS completed is the
+            # running transaction's own data, never the intruding frame taken for it
+            r = results[0] if results else None
+            for s_ in DW.responds:
+                if case['kind'] == 'write' and s_['ret'] is not None and not s_['exc'] and s_['ret'] != bytes(op['values']):
+                    viol.add('intruder_served', '%s: the serving application was handed %s as the written data, the client wrote %s'
+                             % (what, s_['ret'].hex() if isinstance(s_['ret'], bytes) else repr(s_['ret']), bytes(op['values']).hex()), how='taken_for_data', **tag)
+            if r is not None and not r['exc'] and case['kind'] == 'read' and DW.responds and DW.responds[0]['data'] is not None \
+                    and r['ret'] and bytes(r['ret']) != DW.responds[0]['data']:
+                viol.add('intruder_served', '%s: the read returned %s, the serving application supplied %s' % (what, bytes(r['ret']).hex()[:40], DW.responds[0]['data'].hex()[:40]),
+                         how='wrong_read_data', **tag)
         DW.close()
     sample = dict(case=case, fault_points=closing, baseline=base_trace)
     return dict(violations=list(viol), inconclusive=None, sig=repr(sorted(case.items())), nontrivial=obs['intruded_runs'] > 0, obs=obs, sample=sample)
